@@ -134,37 +134,11 @@ impl MT101 {
         let field_21r = parser.parse_optional_field::<Field21R>("21R")?;
         let field_28d = parser.parse_field::<Field28D>("28D")?;
 
-        // Parse optional ordering customer and instructing party (can appear in either order)
-        // Field 50 can be either instructing party (C/L) or ordering customer (F/G/H)
-        // Check which variant is present and parse accordingly
-        let (instructing_party, ordering_customer) = {
-            let mut instructing = None;
-            let mut ordering = None;
-
-            // Detect which Field 50 variant is present
-            if let Some(variant) = parser.detect_variant_optional("50") {
-                match variant.as_str() {
-                    "C" | "L" => {
-                        // Instructing party variants
-                        instructing =
-                            parser.parse_optional_variant_field::<Field50InstructingParty>("50")?;
-                    }
-                    "F" | "G" | "H" => {
-                        // Ordering customer variants
-                        ordering = parser
-                            .parse_optional_variant_field::<Field50OrderingCustomerFGH>("50")?;
-                    }
-                    _ => {
-                        // Any other option is not allowed for field 50 here: report it
-                        // (the parser rejects a value that does not belong to the option read)
-                        instructing =
-                            parser.parse_optional_variant_field::<Field50InstructingParty>("50")?;
-                    }
-                }
-            }
-
-            (instructing, ordering)
-        };
+        // Field 50a instructing party (C, L) and field 50a ordering customer (F, G, H): either, both or none
+        let (instructing_party, ordering_customer) = parse_instructing_party_and::<
+            Field50InstructingParty,
+            Field50OrderingCustomerFGH,
+        >(&mut parser)?;
 
         let field_52a =
             parser.parse_optional_variant_field::<Field52AccountServicingInstitution>("52")?;
@@ -198,10 +172,10 @@ impl MT101 {
             let field_32b = parser.parse_field::<Field32B>("32B")?;
 
             // Transaction-level optional ordering parties
-            let instructing_party_tx =
-                parser.parse_optional_variant_field::<Field50InstructingParty>("50")?;
-            let ordering_customer_tx =
-                parser.parse_optional_variant_field::<Field50OrderingCustomerFGH>("50")?;
+            let (instructing_party_tx, ordering_customer_tx) = parse_instructing_party_and::<
+                Field50InstructingParty,
+                Field50OrderingCustomerFGH,
+            >(&mut parser)?;
 
             let field_52 =
                 parser.parse_optional_variant_field::<Field52AccountServicingInstitution>("52")?;
